@@ -1,7 +1,9 @@
 package rest
 
 import (
+	"errors"
 	"net/http"
+	"sync"
 	"time"
 
 	"github.com/gorilla/websocket"
@@ -35,9 +37,11 @@ var upgraderV1 = websocket.Upgrader{
 
 // msgListenerV1 handles messages from the msghub
 type msgListenerV1 struct {
-	hub     *msghub.Hub                // Global message hub
-	c       chan event.MessageMetadata // Queue of messages from Receive()
-	mailbox string                     // Name of mailbox to monitor, "" == all mailboxes
+	hub       *msghub.Hub                // Global message hub
+	c         chan event.MessageMetadata // Queue of messages from Receive()
+	done      chan struct{}              // Closed when the listener is closed
+	closeOnce sync.Once                  // Guards done
+	mailbox   string                     // Name of mailbox to monitor, "" == all mailboxes
 }
 
 // newMsgListenerV1 creates a listener and registers it.  Optional mailbox parameter will restrict
@@ -46,6 +50,7 @@ func newMsgListenerV1(hub *msghub.Hub, mailbox string) *msgListenerV1 {
 	ml := &msgListenerV1{
 		hub:     hub,
 		c:       make(chan event.MessageMetadata, 100),
+		done:    make(chan struct{}),
 		mailbox: mailbox,
 	}
 	hub.AddListener(ml)
@@ -58,8 +63,7 @@ func (ml *msgListenerV1) Receive(msg event.MessageMetadata) error {
 		// Did not match the watched mailbox name.
 		return nil
 	}
-	ml.c <- msg
-	return nil
+	return ml.enqueue(msg)
 }
 
 // Delete handles a deleted message.
@@ -119,14 +123,16 @@ func (ml *msgListenerV1) WSWriter(conn *websocket.Conn) {
 	// Handle messages from hub until msgListener is closed
 	for {
 		select {
-		case msg, ok := <-ml.c:
+		case <-ml.done:
+			// msgListener closed, exit
+			if err := conn.SetWriteDeadline(time.Now().Add(writeWaitV1)); err != nil {
+				slog.Warn().Err(err).Msg("Failed to set write deadline for close")
+			}
+			_ = conn.WriteMessage(websocket.CloseMessage, []byte{})
+			return
+		case msg := <-ml.c:
 			if err := conn.SetWriteDeadline(time.Now().Add(writeWaitV1)); err != nil {
 				slog.Warn().Err(err).Msg("Failed to set write deadline for msg")
-			}
-			if !ok {
-				// msgListener closed, exit
-				_ = conn.WriteMessage(websocket.CloseMessage, []byte{})
-				return
 			}
 			if conn.WriteJSON(metadataToHeader(&msg)) != nil {
 				// Write failed
@@ -146,15 +152,33 @@ func (ml *msgListenerV1) WSWriter(conn *websocket.Conn) {
 	}
 }
 
-// Close removes the listener registration
-func (ml *msgListenerV1) Close() {
+// errListenerV1Closed is returned to the hub for events that arrive after Close.
+var errListenerV1Closed = errors.New("websocket listener closed")
+
+// enqueue queues an event for the websocket, waiting for room in the queue unless the listener
+// has been closed.  The queue is never closed, so a broadcast in progress cannot panic.
+func (ml *msgListenerV1) enqueue(ev event.MessageMetadata) error {
 	select {
-	case <-ml.c:
-		// Already closed
+	case <-ml.done:
+		return errListenerV1Closed
 	default:
-		ml.hub.RemoveListener(ml)
-		close(ml.c)
 	}
+	select {
+	case ml.c <- ev:
+		return nil
+	case <-ml.done:
+		// Closed while we waited; the hub drops this listener.
+		return errListenerV1Closed
+	}
+}
+
+// Close removes the listener registration.  It may be called more than once, and while events
+// are still queued.
+func (ml *msgListenerV1) Close() {
+	ml.closeOnce.Do(func() {
+		close(ml.done)
+		ml.hub.RemoveListener(ml)
+	})
 }
 
 // MonitorAllMessagesV1 is a web handler which upgrades the connection to a websocket and notifies
